@@ -94,7 +94,7 @@ func HarnessC02_TokDone()         { c02Diff([]byte{byte(TDS_DONE)}, c02N(10, 12)
 func HarnessC02_TokDoneProc()     { c02Diff([]byte{byte(TDS_DONEPROC)}, c02N(9, 11), nil) }
 func HarnessC02_TokDoneInProc()   { c02Diff([]byte{byte(TDS_DONEINPROC)}, c02N(9, 11), nil) }
 // (thorough only: fragmentation of EED is also exercised by the C03/C11 responses and by C07)
-func HarnessC02T_TokEED()         { c02Diff([]byte{byte(TDS_EED)}, c02N(18, 20), nil) }
+func HarnessC02T_TokEED()         { c02Diff([]byte{byte(TDS_EED)}, c02N(18, 18), nil) }
 func HarnessC02_TokError()        { c02Diff([]byte{byte(TDS_ERROR)}, c02N(10, 12), nil) }
 func HarnessC02_TokLoginAck()     { c02Diff([]byte{byte(TDS_LOGINACK)}, c02N(10, 12), nil) }
 func HarnessC02_TokMsg()          { c02Diff([]byte{byte(TDS_MSG)}, c02N(6, 8), nil) }
